@@ -38,7 +38,7 @@ PURE_UNINTERPRETED = {
     "percentile", "nanmin", "nanmax", "nanmean", "count_nonzero", "logical_and", "logical_or", "logical_not",
     "array_split", "vstack", "hstack", "column_stack", "tile", "outer", "dot", "prod", "nanpercentile",
     "lexsort", "partition", "argpartition", "digitize", "meshgrid", "full", "eye", "identity", "triu", "tril",
-    "issubdtype", "finfo", "iinfo", "result_type", "promote_types", "can_cast",
+    "issubdtype", "finfo", "iinfo", "result_type", "promote_types", "can_cast", "spacing", "rint", "trunc", "fix",
 }
 
 BUILTIN_TYPES = {"str", "int", "float", "bool", "list", "tuple", "dict", "set", "bytes", "object", "type"}
@@ -454,6 +454,18 @@ def np_call(ev, name, args, kwargs, node):
         root = storage_root(as_v(ev, A[0]))
         if root is not None:
             ev.event("inplace", how="overwrite_input=", root=root, target="arg0", node=node, value=A[0])
+    if name == "nan_to_num" and A:
+        x0 = as_v(ev, A[0])
+        if kwargs.get("copy") == Const(False):
+            root = storage_root(x0)
+            if root is not None:
+                ev.event("inplace", how="nan_to_num(copy=False)", root=root, target="arg0", node=node, value=A[0])
+        return App("nan_to_num", (x0,), _kw(ev, {k: v for k, v in kwargs.items() if k != "copy"}))
+    if "out" in kwargs and name not in ("add", "subtract", "multiply", "divide", "true_divide") and not (isinstance(kwargs["out"], Const) and kwargs["out"].value is None):
+        # any ufunc / reduction writing into a caller-visible buffer
+        root = storage_root(as_v(ev, kwargs["out"]))
+        if root is not None:
+            ev.event("inplace", how="out=", root=root, target="out", node=node, value=kwargs["out"])
     if name in ("asarray", "array", "asanyarray", "ascontiguousarray"):
         x = arg(0, "a")
         if x is None:
